@@ -2034,8 +2034,9 @@ static long n_hist = 0, n_hist_runs = 0, n_hist_equal_fresh = 0;
 //         `precomputed denominator` mode, restart from a saved iterate of the previous run);
 // kind 2: an interrupted run continued by re-using the object (start_subiteration_num = k+1, start image = saved iterate k or the
 //         image object of the previous run itself), compared with the uninterrupted run of a fresh object.
+// `script` (kind 1): for run r >= 1 the set of changes and the `precomputed denominator` mode instead of random ones
 static void
-run_history(Case c0, int kind, int nruns)
+run_history(Case c0, int kind, int nruns, const std::vector<std::pair<unsigned, int>>* script = nullptr)
 {
   vh::Rng hr(c0.data_seed * 6364136223846793005ULL + 1442695040888963407ULL + static_cast<uint64_t>(kind));
   c0.randomise = false; // (the random order is seeded from the clock by set_up)
@@ -2141,6 +2142,9 @@ run_history(Case c0, int kind, int nruns)
         }
       else if (kind == 1 && r > 0)
         {
+          const bool scripted = script && r - 1 < static_cast<int>(script->size());
+          if (scripted)
+            changed = (*script)[r - 1].first;
           while (changed == 0)
             for (unsigned bit = 1; bit <= CH_RESTART; bit <<= 1)
               if (hr.range(0, 3) == 0)
@@ -2181,7 +2185,7 @@ run_history(Case c0, int kind, int nruns)
             valid_d0file.clear();
           if (changed & CH_DMODE)
             {
-              dmode = hr.range(0, 3);
+              dmode = scripted ? (*script)[r - 1].second : hr.range(0, 3);
               if (dmode == 2 && valid_d0file.empty())
                 dmode = any_d0file.empty() ? 0 : 3;
               if (dmode == 3 && any_d0file.empty())
@@ -2427,9 +2431,14 @@ run_history(Case c0, int kind, int nruns)
       }
       ++n_hist_runs;
       hist["history_runs"]++;
-      for (unsigned bit = 1; bit <= CH_RESTART; bit <<= 1)
-        if (changed & bit)
-          hist["history_change_" + std::to_string(bit)]++;
+      {
+        static const char* const names[] = { "data", "additive", "normalisation", "subsets", "relaxation", "prior_factor", "prior_object",
+                                             "start_image", "denominator_mode", "restart_from_saved_iterate" };
+        int i = 0;
+        for (unsigned bit = 1; bit <= CH_RESTART; bit <<= 1, ++i)
+          if (changed & bit)
+            hist[std::string("history_change_") + names[i]]++;
+      }
 
       // ---- a FRESH object (objective function, prior, reconstruction) configured identically
       {
@@ -2743,10 +2752,31 @@ main(int argc, char** argv)
       return c;
     };
     const int nh = static_cast<int>(geoms.size());
+    // whatever the seed: the denominator file of the first set_up read back by the second run (`precomputed denominator := <file>`)
+    // with other relaxation parameters and prior factor, then back to a computed denominator for NEW data;
+    // data + normalisation + additive term replaced, then subsets + prior object + start image
+    {
+      const std::vector<std::pair<unsigned, int>> s1 = { { CH_RELAX | CH_BETA | CH_DMODE, 2 }, { CH_DATA | CH_DMODE, 0 } };
+      const std::vector<std::pair<unsigned, int>> s2 = { { CH_DATA | CH_NORM | CH_ADD, 0 }, { CH_NSUB | CH_PRIOROBJ | CH_INIT, 0 } };
+      Case c = config(geoms[0], false);
+      c.prior = 1, c.beta = 1.25F, c.denom_ones = false;
+      run_history(c, 1, 3, &s1);
+      c = config(geoms[1 % nh], false);
+      c.prior = 1, c.beta = 0.5F, c.denom_ones = false;
+      run_history(c, 1, 3, &s2);
+      hist["scripted_histories"] += 2;
+    }
     for (int gi = 0; gi < nh; ++gi)
+     for (int rep = 0; rep < 2; ++rep)
       for (int kind = 0; kind <= 2; ++kind)
         {
           Case c = config(geoms[gi], false);
+          if (rep == 1)
+            {
+              int nruns = kind == 0 ? 2 : (kind == 1 ? 2 + hrng.range(0, 1) : 2 + hrng.range(0, 1));
+              run_history(c, kind, nruns);
+              continue;
+            }
           int nruns = kind == 0 ? 2 + (gi % 2) : (kind == 1 ? 3 - (gi % 2) : 2 + hrng.range(0, 1));
           if (gi == 0 && kind == 0)
             {
